@@ -20,7 +20,9 @@ REL = ["Rel_sec", "Rel_sym", "Rel_prx", "Rel_biv", "Rel_blk"]
 
 def tree_stages(ctx):
     """containment, UUID table and owning collections (C03 C04 C16)"""
-    names = REL + (["ModListQ"] if ctx.quick() else ["ModList"])
+    names = REL + [r + "_same" for r in REL] + ["Rel_sec_other", "Rel_blk_other"] + (
+        [] if ctx.quick() else ["Rel_sym_other", "Rel_prx_other", "Rel_biv_other"]) + (
+        ["ModListQ"] if ctx.quick() else ["ModList"])
     ctx.log("TLC: exhaustive transition dumps of", names)
     results = parallel(lambda n: run_tlc_config(n, emit=True), names)
     for n, r in zip(names, results):
@@ -41,6 +43,8 @@ RULE_WALK = ("cases are transitions of the bounded TLA+ model (Gtirb.tla under t
 @plan("C03", "C04", "C16")
 def p_tree(ctx):
     tree_stages(ctx)
+    from . import driver
+    driver.stage_traces(ctx, "TraceTree", n_traces=30 if ctx.quick() else 400, length=60 if ctx.quick() else 120)
     if ctx.prop in ("C03", "C04"):
         stages.stage_repo_tests(ctx)
     if ctx.prop == "C16":
@@ -219,6 +223,8 @@ def p_sym(ctx):
     if not ctx.quick():
         stages.stage_mc(ctx, "SymT", timeout=3000)
     stages.stage_sim(ctx, "SymSim", num=150 if ctx.quick() else 3000, depth=30)
+    from . import driver
+    driver.stage_traces(ctx, "TraceTree", n_traces=30 if ctx.quick() else 400, length=60 if ctx.quick() else 120)
     return "model_checking", RULE_WALK
 
 
@@ -228,6 +234,8 @@ def p_cfg(ctx):
     results = parallel(lambda n: run_tlc_config(n, emit=True), names)
     for n, r in zip(names, results):
         stages.stage_graph(ctx, n, result=r)
+    from . import driver
+    driver.stage_traces(ctx, "TraceData", n_traces=30 if ctx.quick() else 400, length=60 if ctx.quick() else 120)
     ctx.assumptions.append("nodes compared by identity, labels by value; label tokens map to fixed EdgeLabel values")
     return "model_checking", RULE_WALK
 
@@ -239,6 +247,8 @@ def p_bytes(ctx):
     for n, r in zip(names, results):
         stages.stage_graph_lookups(ctx, n, result=r, per_step=6,
                                    bases=(0, core.BASES["2^64-40"]))
+    from . import driver
+    driver.stage_traces(ctx, "TraceData", n_traces=30 if ctx.quick() else 400, length=60 if ctx.quick() else 120)
     return "model_checking", RULE_LOOKUP
 
 
